@@ -1019,7 +1019,9 @@ bool port_is_enabled(const Port* port, char* loc, size_t loc_size,
                 //    /loc/abc/../enable
                 //            abc/enable
                 //
-                const char* old_end = loc_copy + loclen + 3;
+                // (the "../" is only there for a port relative to the parent)
+                const char* old_end = loc_copy + loclen
+                                               + (relative_to_parent ? 3 : 0);
                 walker(ask_port, collapsed_loc, old_end, base, data, runtime);
             }
 
